@@ -197,6 +197,23 @@ fn check(c: &Case, acc: &mut Acc) {
             wit(),
         ));
     }
+    // roles: if the message uses the words "argument" / "test" / "action" / "option" right before a
+    // quoted item, the item after "argument" is the word and the item after the class noun is the
+    // keyword, not the other way round (a message with another wording is not judged by this rule)
+    if let Some(kw) = c.kw {
+        if kw != c.word {
+            let lower = text.to_lowercase();
+            let after = |noun: &str, item: &str| ['`', '\'', '"'].iter().any(|q| lower.contains(&format!("{noun} {q}{}{q}", item.to_lowercase())));
+            let word_as_keyword = !c.word.is_empty() && ["test", "action", "option", "primary", "predicate"].iter().any(|n| after(n, &c.word));
+            if after("argument", kw) || word_as_keyword || (c.word.is_empty() && ["test", "action", "option"].iter().any(|n| after(n, ""))) {
+                acc.violate(Violation::new(
+                    format!("C18:{}:{}:keyword-and-word-exchanged", c.family, class),
+                    format!("parse({:?}) failed with {text:?}, which presents the keyword {kw} as the argument (or the argument {:?} as the keyword)", c.input, c.word),
+                    wit(),
+                ));
+            }
+        }
+    }
     for q in ['`', '"'] {
         for seg in quoted_segments(&text, q) {
             if !c.input.contains(&seg) {
